@@ -163,6 +163,14 @@ def events_for(case, inst, frame_builder=None):
                 finally:
                     os.remove(path)
             else:
+                if normalize == "none" and case % 2 == 0:
+                    # an earlier quantification of the SAME interface objects at another placement (same layers) must leave
+                    # nothing behind: results are a function of this call's arguments only
+                    try:
+                        fs.myosin.get_intensities(lst, image, env["integrate"], None, env["layers"],
+                                                  rescale=[r[0] * 0.5, r[1] * 0.5], offset=[o[0] * 0.5 + 2, o[1] * 0.5 + 2])
+                    except Exception:
+                        pass
                 res = fs.myosin.get_intensities(lst, image, env["integrate"], norm, env["layers"], rescale=r, offset=o)
             ret, gt, raised = project_result(res, n), [fxc(b.gt) for b in lst], ""
         except Exception as exc:
